@@ -73,6 +73,11 @@ pub fn candidates(l: &Layout) -> Vec<(String, Layout)> {
             }
         }
     }
+    if l.decoys != 0 {
+        let mut n = l.clone();
+        n.decoys = 0;
+        out.push(("drop decoys".into(), n));
+    }
     if l.debug {
         let mut n = l.clone();
         n.debug = false;
